@@ -105,10 +105,10 @@ func (o *onode) render(form string, b *strings.Builder) {
 		b.WriteByte('[')
 		for i, k := range o.kids {
 			if i > 0 {
-				if form == "sen" {
-					b.WriteByte(' ')
-				} else {
+				if form != "sen" {
 					b.WriteByte(',')
+				} else if o.kids[i-1].kind == 'l' { // sen.String puts no separator after a closing bracket inside an array
+					b.WriteByte(' ')
 				}
 			}
 			k.render(form, b)
